@@ -329,6 +329,62 @@ def u8(rep):
                           "(%s, %s): a record can survive in one of them" % (a, b))
 
 
+U9_UNITS = ("scobind.c", "stab.c", "tform.c", "syme.c", "sefo.c")
+
+
+def u9_digest(f):
+    base = f.unit.split("/")[-1]
+    out = []
+    for name, fn in f.funcs.items():
+        if "body" not in fn or not fn.get("file", "").endswith(base):
+            continue
+        for x in walk(fn["body"]):
+            rhs = None
+            if x["k"] == "BinaryOperator" and x["op"] == "=":
+                l = strip(x["c"][0])
+                if l is not None and l["k"] == "MemberExpr" and l["n"] == "intStepNo":
+                    rhs = x["c"][1]
+            elif x["k"] == "CallExpr" and x.get("callee") == "symeSetIntStepNo" and len(x["c"]) >= 3:
+                rhs = x["c"][2]
+            if rhs is None:
+                continue
+            r = strip(rhs)
+            if r is not None and r["k"] == "DeclRefExpr" and r["n"] == "intStepNo" and r.get("dk") == "var":
+                kind = "current"
+            elif const_value(rhs) == 0:
+                kind = "zero"
+            else:
+                kind = "other:" + common.render(r)[:50]
+            out.append((name, x["l"], kind))
+    return out
+
+
+def u9(rep):
+    """The roll-back of a rejected step recognises what the step made by its stamp: every record the binder, the symbol table
+    and the type-form and meaning constructors make is stamped `intStepNo`, the number of the step being read, and
+    `isNew*` tests `stamp == intStepNo - 1`.  A stamp taken from somewhere else -- the step in which the record's *scope level*
+    was made, which for the file level is 0 for ever -- makes every record of that level invisible to the roll-back: an
+    identifier first mentioned in a rejected form keeps its `used before definition` mark, and the correct definition that
+    follows is refused.  Every store into an `intStepNo` field (and every symeSetIntStepNo) in the binder's units stores the
+    current step, or the constant 0 where a record is being detached from the session."""
+    dig = common.map_units(list(U9_UNITS), u9_digest, "compiler", all_trees=True)
+    n = 0
+    for u in sorted(dig):
+        base = u.split("/")[-1]
+        for name, line, kind in dig[u]:
+            n += 1
+            key = "stamped-with-the-current-step:%s:%s" % (base, name)
+            if kind in ("current", "zero"):
+                rep.ok("U9", key + "@%d" % line, nontrivial=(kind == "current"))
+            else:
+                rep.violation("U9", key, "%s:%d (%s)" % (base, line, name),
+                              "the record made here is stamped with `%s`, not with the step being read: the roll-back of a "
+                              "rejected step (`stamp == intStepNo - 1`) does not recognise it, so what the rejected form left in "
+                              "it stays -- an identifier first used in a rejected form can never be defined in that session"
+                              % kind[6:])
+    rep.floor("step stamps written by the binder, the symbol table and the constructors", n, 6)
+
+
 def u7(rep, f):
     """typeInferTForms() skips a symbol-table level whose `isChecked` flag is set.  The file level stays open for the whole
     interactive session, so the flag must be false again whenever a step's type inference starts -- including the step after a
@@ -609,6 +665,7 @@ def run(tier, only=None):
     u6(rep)
     u7(rep, f)
     u8(rep)
+    u9(rep)
     rep.analysed_count("functions", 3)
     rep.assumptions.append("the CFG search is path-insensitive except for the fintMode == FINT_LOOP assumption in U1")
     return rep
